@@ -150,6 +150,20 @@ func (d *GDoc) values(v *View, includeDefaults bool) []valueRef {
 	return out
 }
 
+// scalarLiteralShape counts the values nested inside literals for custom scalars, and the
+// variables among them (F-04g).
+func (d *GDoc) scalarLiteralShape() (free, vars int) {
+	for _, x := range d.values(&View{}, true) {
+		if x.v.Free {
+			free++
+			if x.v.Kind == "var" {
+				vars++
+			}
+		}
+	}
+	return
+}
+
 type mutation struct {
 	name string // distribution key
 	rule string // the Spec rule it aims at
@@ -191,7 +205,7 @@ func wrongLiteral(r *hx.Rand, v *View, t *TypeRef, inList bool) *GValue {
 		return hx.Pick(r, []*GValue{{Kind: "float", Text: "1.5"}, {Kind: "bool", Text: "true"}, {Kind: "int", Text: "9223372036854775808"}})
 	}
 	// custom scalar: a kind it does not accept
-	for _, k := range []string{"int", "float", "string", "bool", "enum"} {
+	for _, k := range []string{"int", "float", "string", "bool", "enum", "list", "object"} {
 		ok := false
 		for _, a := range td.Accepts[1:] {
 			if a == k {
@@ -200,7 +214,7 @@ func wrongLiteral(r *hx.Rand, v *View, t *TypeRef, inList bool) *GValue {
 		}
 		if !ok {
 			return map[string]*GValue{"int": {Kind: "int", Text: "1"}, "float": {Kind: "float", Text: "1.5"}, "string": {Kind: "string", Text: `"s"`},
-				"bool": {Kind: "bool", Text: "true"}, "enum": {Kind: "enum", Text: "E"}}[k]
+				"bool": {Kind: "bool", Text: "true"}, "enum": {Kind: "enum", Text: "E"}, "list": {Kind: "list"}, "object": {Kind: "object"}}[k]
 		}
 	}
 	return &GValue{Kind: "list"}
@@ -711,7 +725,7 @@ func mutations() []mutation {
 		{"input-object-field", "valuesCorrect", func(r *hx.Rand, v *View, d *GDoc) bool {
 			var c []valueRef
 			for _, x := range d.values(v, true) {
-				if x.v.Kind == "object" {
+				if x.v.Kind == "object" && x.v.Type != nil && !x.v.Free && v.typ(x.v.Type.Base()) != nil {
 					c = append(c, x)
 				}
 			}
